@@ -56,6 +56,16 @@ func prefills() map[string]*prefill {
 		}, has: func(k uint64) bool { return k%2 == 0 && k >= 2 && k <= 2*(b-1) },
 			uniQ: []uint64{2 * b, 2*b + 2},
 			uniT: []uint64{2 * b, 2*b + 2, 3, 2*b - 1}},
+		// a section whose start is large (first key 5000) with 300 more ascending even keys: an odd key that sorts
+		// more than 128 slots behind the newest entry must go to the overflow list, one within 128 slots is
+		// sorted in place; with a large start the stored (section-relative) keys differ a lot from the absolute ones
+		"high": {name: "high", keys: func(f func(uint64)) {
+			for k := uint64(5000); k <= 5600; k += 2 {
+				f(k)
+			}
+		}, has: func(k uint64) bool { return k%2 == 0 && k >= 5000 && k <= 5600 },
+			uniQ: []uint64{5301, 5001, 5599},
+			uniT: []uint64{5301, 5001, 5599, 5601, 5000}},
 		// key 1, then 300 descending even keys: the first ~128 are sorted into the values array by the look-back path, the others overflow
 		"desc": {name: "desc", keys: func(f func(uint64)) {
 			f(1)
